@@ -113,17 +113,21 @@ namespace sim
     }
   };
 
+  // comparisons of the instrumented flavours may throw (fault kind `compare`): the container's
+  // comparison operators and the non-member erase are not noexcept and must pass it on
   inline bool
-  operator== (const elem_core& a, const elem_core& b) noexcept
+  operator== (const elem_core& a, const elem_core& b)
   {
+    on_event (EV_COMPARE);
     elem_core::check_live (&a, "compared");
     elem_core::check_live (&b, "compared");
     return a.value == b.value;
   }
 
   inline bool
-  operator< (const elem_core& a, const elem_core& b) noexcept
+  operator< (const elem_core& a, const elem_core& b)
   {
+    on_event (EV_COMPARE);
     elem_core::check_live (&a, "compared");
     elem_core::check_live (&b, "compared");
     return a.value < b.value;
@@ -195,14 +199,15 @@ namespace sim
 
 #ifdef SVSIM_HAVE_SPACESHIP
     friend std::strong_ordering
-    operator<=> (const elem_nm& a, const elem_nm& b) noexcept
+    operator<=> (const elem_nm& a, const elem_nm& b)
     {
+      on_event (EV_COMPARE);
       check_live (&a, "compared");
       check_live (&b, "compared");
       return a.value <=> b.value;
     }
     friend bool
-    operator== (const elem_nm& a, const elem_nm& b) noexcept
+    operator== (const elem_nm& a, const elem_nm& b)
     {
       return static_cast<const elem_core&> (a) == static_cast<const elem_core&> (b);
     }
